@@ -58,6 +58,8 @@ TCommit ==
   /\ lbl'.c
   /\ LoggedP(Ev.s)
 TDedup   == IsEvent("dedup") /\ Dedup /\ (Ev.res <=> wk.mid \in done)
+TTrusted == IsEvent("trusted") /\ DedupTrusted
+TBloomReset == IsEvent("bloomreset") /\ BloomReset
 TExec    == /\ IsEvent("exec") /\ RunTaskExec
             /\ Cur.t = Ev.task /\ tk[Cur.t].prog = Ev.prog /\ st[Cur.s].jumps = Ev.jumps /\ st[Cur.s].sig = Ev.sig
 THRet    == IsEvent("hret") /\ (HRet \/ Handlers) /\ ~lbl'.c /\ wk'.pc = "postmark" /\ Same
@@ -72,7 +74,7 @@ TCrash   == IsEvent("crash") /\ CrashWhen(TRUE) /\ LoggedP(Ev.s)
 TCancel  == IsEvent("sendcancel") /\ SendCancel /\ LoggedP(Ev.s)
 TEarly   == IsEvent("early") /\ EarlyStart(Ev.stage) /\ LoggedP(Ev.s)
 
-TraceNext == TCommit \/ TDedup \/ TExec \/ THRet \/ THRaise \/ THFail \/ TNoAck \/ TWarp \/ TExpire
+TraceNext == TCommit \/ TDedup \/ TTrusted \/ TBloomReset \/ TExec \/ THRet \/ THRaise \/ THFail \/ TNoAck \/ TWarp \/ TExpire
              \/ TSweep \/ TDlq \/ TCrash \/ TCancel \/ TEarly
 
 TraceSpec == TraceInit /\ [][TraceNext]_tvars
